@@ -120,7 +120,7 @@ CHECKS.update({
               "distinguish) and state/root presence per object as solver variables; operation, state kind, addressed type and object, skip_types, readonly image, check_mode, 1..2 vms x 1..2 images "
               "and sequences of 2 (3) operations are enumerated by the explorer. The README policy table is a reference program over the same symbolic letters; raised exception class, state-changing "
               "backend calls, get calls and touched objects are compared per path. Exhaustive within the bounds. check_mode: unset, 'rr' and 'rf' get the full reference; the other values of this undocumented experimental parameter (thorough tier) only the clause 'nothing but the addressed objects is touched'."),
-        note="push/pop are not combined with skip_types/image_readonly (they re-root the iteration and do not evaluate them). Trusted: the reference program, the in-memory backend.",
+        note="Trusted: the reference program (README policy table; skip_types and read-only images apply to every operation incl. push/pop), the in-memory backend.",
         design="DESIGN.md §1 C12"),
 })
 
